@@ -116,6 +116,9 @@ func (cl *CmdLine) Parse(args []string) []string {
 			switch {
 			case arg == "--":
 				state = collectRemainingState
+			case arg == "-":
+				remainingArgs = append(remainingArgs, arg)
+				state = collectRemainingState
 			case strings.HasPrefix(arg, "--"):
 				var value string
 				arg = arg[2:]
